@@ -108,6 +108,7 @@ func (e *Exec) exec(s ast.Stmt) {
 	case *ast.SendStmt:
 		e.ev(s.Chan)
 		v := e.ev(s.Value)
+		e.checkSendInv(s, v)
 		e.recordSend(s, v)
 	case *ast.EmptyStmt:
 	default:
